@@ -298,11 +298,18 @@ def run(ctx, obs, prop: str):
     obs.analysed['sweep_inplace_div'] = inplace_division(ctx, obs, pre)
     obs.analysed['sweep_sorted_arg'] = sorted_argument(ctx, obs, pre)
     obs.analysed['sweep_loop_state'] = loop_state(ctx, obs, pre)
+    obs.analysed['sweep_loop_carry'] = loop_carry(ctx, obs, pre)
+    obs.analysed['sweep_loop_shadow'] = loop_shadow(ctx, obs, pre)
+    obs.analysed['sweep_triangular_solves'] = triangular_solve(ctx, obs, pre)
+    obs.analysed['sweep_mask_weight'] = mask_as_weight(ctx, obs, pre + EXTRA_SELECT_SCOPE.get(prop, []))
+    obs.analysed['sweep_run_lengths'] = run_lengths(ctx, obs, pre + EXTRA_SELECT_SCOPE.get(prop, []))
     sel = pre + EXTRA_SELECT_SCOPE.get(prop, [])
     obs.analysed['sweep_tolerance_selections'] = tolerance_selection(ctx, obs, sel)
     obs.analysed['sweep_lost_stores'] = lost_store(ctx, obs, sel)
     from .condensed import condensed_index
     obs.analysed['sweep_condensed_indices'] = condensed_index(ctx, obs, sel, _in_scope)
+    from .condensed import half_filled_lookup
+    obs.analysed['sweep_half_filled_lookups'] = half_filled_lookup(ctx, obs, sel, _in_scope)
     obs.analysed['sweep_fwd_default_sites'] = a
     obs.analysed['sweep_par_live_params'] = b
     if b == 0:
@@ -781,6 +788,192 @@ def _is_sub_base(name_node, nodes) -> bool:
     return False
 
 
+# ------------------------------------------------------------------------------------------------------ LOOP-SHADOW
+def loop_shadow(ctx, obs, prefixes: Sequence[str], rule='LOOP-SHADOW') -> int:
+    """`for .., v in zip(xs, v)` / `for v in v`: the loop target takes the name of the collection it iterates.  After the first
+    pass the name holds an element; when the loop statement runs again (it sits in an enclosing loop) or the collection is read
+    after the loop, an element is used where the collection is meant."""
+    prog = ctx.prog
+    n = 0
+    for q, f in sorted(prog.functions.items()):
+        if not _in_scope(q, prefixes) or f.parent is not None:
+            continue
+        loops = [x for x in ast.walk(f.node) if isinstance(x, (ast.For, ast.While))]
+        so = source_order(f.node)
+        for lp in loops:
+            if not isinstance(lp, ast.For):
+                continue
+            tg = {x.id for x in ast.walk(lp.target) if isinstance(x, ast.Name)}
+            rd = {x.id for x in ast.walk(lp.iter) if isinstance(x, ast.Name) and isinstance(x.ctx, ast.Load)}
+            both = sorted(tg & rd)
+            if not both:
+                continue
+            n += 1
+            v = both[0]
+            outer = [o for o in loops if o is not lp and any(lp is y for y in ast.walk(o))]
+            later = [x for x in ast.walk(f.node) if isinstance(x, ast.Name) and x.id == v and isinstance(x.ctx, ast.Load)
+                     and so.get(id(x), 0) > max(so.get(id(y), 0) for y in ast.walk(lp)) ]
+            con = f'the collection `{v}` iterated by the loop at line {lp.lineno} is not replaced by one of its elements'
+            # a fresh binding of v before the loop statement in every pass of the enclosing loop makes the shadowing harmless
+            rebound = False
+            if outer:
+                o = outer[-1]
+                for st in ast.walk(o):
+                    if isinstance(st, ast.Assign) and so.get(id(st), 0) < so.get(id(lp), 0) \
+                            and any(isinstance(x, ast.Name) and x.id == v and isinstance(x.ctx, ast.Store) for t in st.targets for x in ast.walk(t)) \
+                            and not any(isinstance(x, ast.Name) and x.id == v and isinstance(x.ctx, ast.Load) for x in ast.walk(st.value)):
+                        rebound = True
+            if (outer and not rebound) or later:
+                why = f'the loop runs again inside the loop at line {outer[-1].lineno}' if outer and not rebound else f'`{v}` is read again at line {later[0].lineno}'
+                obs.bad(rule, q, con, f'`for {norm(lp.target)} in {norm(lp.iter)[:60]}` binds `{v}` to an element of the collection it iterates, and '
+                        f'{why}: from then on `{v}` is a single element', where(prog, f, lp))
+            else:
+                obs.ok(rule, q, con, 'the name is not used again', where(prog, f, lp))
+    return n
+
+
+# ---------------------------------------------------------------------------------------------------------- RUNLEN
+def run_lengths(ctx, obs, prefixes: Sequence[str], rule='RUNLEN') -> int:
+    """run lengths by `np.diff(np.nonzero(B)[0])` / `np.diff(np.flatnonzero(B))`: B marks the START of every run and needs a sentinel
+    at BOTH ends (`np.r_[True, change, True]`): without the closing one the last run is never counted, without the opening one the
+    first is not.  Recognised through single-assignment locals."""
+    prog = ctx.prog
+    n = 0
+    for q, f in sorted(prog.functions.items()):
+        if not _in_scope(q, prefixes) or f.parent is not None:
+            continue
+        local = {}
+        for s in ast.walk(f.node):
+            if isinstance(s, ast.Assign) and len(s.targets) == 1 and isinstance(s.targets[0], ast.Name):
+                local.setdefault(s.targets[0].id, []).append(s.value)
+
+        def res(e, depth=0):
+            while depth < 6:
+                if isinstance(e, ast.Name) and len(local.get(e.id, [])) == 1:
+                    e = local[e.id][0]
+                elif isinstance(e, ast.Subscript) and isinstance(e.slice, ast.Constant) and e.slice.value == 0:
+                    e = e.value
+                elif isinstance(e, ast.Call) and _leafname(e.func) in ('astype', 'asarray', 'array') and (e.args or isinstance(e.func, ast.Attribute)):
+                    e = e.func.value if isinstance(e.func, ast.Attribute) and not (isinstance(e.func.value, ast.Name) and e.func.value.id in ('np', 'numpy')) else e.args[0]
+                else:
+                    break
+                depth += 1
+            return e
+        for c in ast.walk(f.node):
+            if not (isinstance(c, ast.Call) and _leafname(c.func) == 'diff' and c.args):
+                continue
+            a = res(c.args[0])
+            if not (isinstance(a, ast.Call) and _leafname(a.func) in ('nonzero', 'flatnonzero', 'where')):
+                continue
+            inner = a.args[0] if a.args else (a.func.value if isinstance(a.func, ast.Attribute) else None)
+            b = res(inner) if inner is not None else None
+            if not (isinstance(b, ast.Subscript) and isinstance(b.value, ast.Attribute) and b.value.attr == 'r_' and isinstance(b.slice, ast.Tuple)):
+                continue
+            elts = b.slice.elts
+            first = isinstance(elts[0], ast.Constant) and elts[0].value is True
+            last = isinstance(elts[-1], ast.Constant) and elts[-1].value is True
+            if not (first or last):
+                continue
+            n += 1
+            con = f'run boundaries `{norm(b)[:50]}` have a sentinel at both ends, so `{norm(c)[:40]}` counts every run'
+            if first and last:
+                obs.ok(rule, q, con, '', where(prog, f, c))
+            else:
+                obs.bad(rule, q, con, f'`{norm(b)[:70]}` marks run starts with a sentinel at the {"start" if first else "end"} only: '
+                        f'`{norm(c)[:50]}` leaves out the {"last" if first else "first"} run (its length never enters the tie counts)',
+                        where(prog, f, c))
+    return n
+
+
+# ------------------------------------------------------------------------------------------------------ LOOP-CARRY
+def loop_carry(ctx, obs, prefixes: Sequence[str], rule='LOOP-CARRY') -> int:
+    """In a `for` loop over items (datasets, folds, fold pairs, centres), a variable that is updated from its own previous value
+    (`v = g(v, ..)`, the update reads the value the SAME statement left in the previous iteration) and is then used inside the loop
+    makes the result for item k depend on the items before k.  Accepted: counters (`k += 1`, `k = k + 1`), accumulators that are
+    only read after the loop (`total += x[i]`, `names = names + [..]`), and in-place container growth (`lst.append`).  The
+    reaching definitions come from the dependence engine, so an update that is preceded by a fresh per-iteration definition is
+    not loop-carried."""
+    prog = ctx.prog
+    n = 0
+    for q, f in sorted(prog.functions.items()):
+        if not _in_scope(q, prefixes) or f.parent is not None:
+            continue
+        loops = [x for x in ast.walk(f.node) if isinstance(x, ast.For)]
+        if not loops:
+            continue
+        r = ctx.dep.result(q)
+        if r is None:
+            continue
+        for lp in loops:
+            inside = [x for st in lp.body for x in ast.walk(st)]
+            n += 1
+            found = None
+            for st in inside:
+                if isinstance(st, ast.AugAssign) and isinstance(st.target, ast.Name):
+                    v, rhs, self_loads = st.target.id, st.value, None
+                elif isinstance(st, ast.Assign) and len(st.targets) == 1 and isinstance(st.targets[0], ast.Name):
+                    v, rhs = st.targets[0].id, st.value
+                    self_loads = [x for x in ast.walk(rhs) if isinstance(x, ast.Name) and x.id == v]
+                    if not self_loads:
+                        continue
+                else:
+                    continue
+                # the statement's own definition reaches its own read: carried around the loop
+                if self_loads is not None:
+                    own = [d for x in self_loads for d in r.load_defs.get(id(x), ()) if r.defs[d].node is st]
+                    if not own:
+                        continue
+                else:
+                    # augmented assignment: carried when no other definition inside this loop comes first in every iteration; the
+                    # engine's reaching definitions of later reads decide; approximated by "defined before the loop only"
+                    others = [y for y in inside if isinstance(y, ast.Name) and y.id == v and isinstance(y.ctx, ast.Store) and y is not st.target]
+                    others += [y for y in ast.walk(lp.target) if isinstance(y, ast.Name) and y.id == v]
+                    if others:
+                        continue
+                # counters
+                if _is_counter_update(st, v):
+                    continue
+                # used inside the loop other than in its own update
+                other_reads = [x for x in inside if isinstance(x, ast.Name) and x.id == v and isinstance(x.ctx, ast.Load)
+                               and not any(x is y for y in ast.walk(st))]
+                if not other_reads:
+                    continue            # an accumulator, read after the loop
+                # only the nearest enclosing loop of the statement is charged
+                inner = [l2 for l2 in loops if l2 is not lp and any(l2 is y for y in inside) and any(st is y for y in ast.walk(l2))]
+                if inner:
+                    continue
+                found = (st, v, other_reads[0])
+                break
+            con = f'the loop at line {lp.lineno} computes each item from that item alone (no value carried over from earlier iterations)'
+            if found:
+                st, v, use = found
+                obs.bad(rule, q, con, f'`{norm(st)[:90]}` builds `{v}` from the value the previous iteration left in it, and `{v}` is used '
+                        f'in the same loop (line {use.lineno}): the result for an item depends on the items processed before it',
+                        where(prog, f, st))
+            else:
+                obs.ok(rule, q, con, '', where(prog, f, lp))
+    return n
+
+
+def _is_counter_update(st, v) -> bool:
+    def const(e):
+        return isinstance(e, ast.Constant) and isinstance(e.value, (int, float)) or \
+            (isinstance(e, ast.UnaryOp) and isinstance(e.operand, ast.Constant))
+    if isinstance(st, ast.AugAssign):
+        return isinstance(st.op, (ast.Add, ast.Sub)) and (const(st.value) or not any(isinstance(x, (ast.Subscript, ast.Call)) for x in ast.walk(st.value)))
+    e = st.value
+    if isinstance(e, ast.BinOp) and isinstance(e.op, (ast.Add, ast.Sub)):
+        a, b = e.left, e.right
+
+        def scalar(x):
+            return not any(isinstance(y, (ast.Subscript, ast.Call)) for y in ast.walk(x))
+        if isinstance(a, ast.Name) and a.id == v and scalar(b):
+            return True
+        if isinstance(b, ast.Name) and b.id == v and scalar(a):
+            return True
+    return False
+
+
 # ------------------------------------------------------------------------------------------------------------- TOL
 _TOL_FUNCS = {'isclose', 'allclose'}
 _MASK_CONSUMERS = {'where', 'nonzero', 'flatnonzero', 'argwhere', 'compress', 'extract', 'cumsum', 'count_nonzero', 'sum', 'any', 'all'}
@@ -931,3 +1124,156 @@ def _index_kind(sl, r, depth=0):
     if all(k == 'basic' for k in kinds):
         return 'basic'
     return None
+
+
+# ----------------------------------------------------------------------------------------------------- MASK-WEIGHT
+def mask_as_weight(ctx, obs, prefixes: Sequence[str], rule='MASK-WEIGHT') -> int:
+    """A per-group statistic is taken over the rows SELECTED for the group (`x[mask]`, `x[idx]`).  Multiplying the whole array by a
+    0/1 membership matrix instead (`(labels == k) @ x`, `np.dot(member.astype(float), x)`, einsum with the membership) adds
+    `0 * x[j]` for every row outside the group: a NaN / inf anywhere in the data (missing measurements are legal) turns the means
+    of ALL groups into NaN.  Flagged: a matrix product whose one operand derives from an equality comparison (through astype / T /
+    newaxis / single-assignment locals) and whose other operand is not derived from a comparison."""
+    prog = ctx.prog
+    n = 0
+    for q, f in sorted(prog.functions.items()):
+        if not _in_scope(q, prefixes) or f.parent is not None:
+            continue
+        local = {}
+        for s in ast.walk(f.node):
+            if isinstance(s, ast.Assign) and len(s.targets) == 1 and isinstance(s.targets[0], ast.Name):
+                local.setdefault(s.targets[0].id, []).append(s.value)
+
+        def is_member(e, depth=0) -> bool:
+            if depth > 5:
+                return False
+            if isinstance(e, ast.Compare) and len(e.ops) == 1 and isinstance(e.ops[0], (ast.Eq, ast.NotEq)):
+                return True
+            if isinstance(e, ast.Call) and _leafname(e.func) in ('astype', 'asarray', 'array', 'transpose', 'float64', 'float_'):
+                inner = e.func.value if isinstance(e.func, ast.Attribute) and not (isinstance(e.func.value, ast.Name) and e.func.value.id in ('np', 'numpy')) \
+                    else (e.args[0] if e.args else None)
+                return inner is not None and is_member(inner, depth + 1)
+            if isinstance(e, ast.Call) and _leafname(e.func) in ('isin', 'in1d', 'equal'):
+                return True
+            if isinstance(e, ast.Call) and _leafname(e.func) == 'outer' and isinstance(e.func, ast.Attribute) \
+                    and isinstance(e.func.value, ast.Attribute) and e.func.value.attr in ('equal', 'not_equal'):
+                return True
+            if isinstance(e, ast.Attribute) and e.attr == 'T':
+                return is_member(e.value, depth + 1)
+            if isinstance(e, ast.Subscript):
+                return is_member(e.value, depth + 1) if not isinstance(e.value, ast.Name) or e.value.id in local else False
+            if isinstance(e, ast.BinOp) and isinstance(e.op, (ast.Mult, ast.Div)):
+                return is_member(e.left, depth + 1) or is_member(e.right, depth + 1)
+            if isinstance(e, ast.Name):
+                vals = local.get(e.id, [])
+                return len(vals) == 1 and is_member(vals[0], depth + 1)
+            return False
+        for e in ast.walk(f.node):
+            ops = None
+            if isinstance(e, ast.BinOp) and isinstance(e.op, ast.MatMult):
+                ops = (e.left, e.right)
+            elif isinstance(e, ast.Call) and _leafname(e.func) in ('dot', 'matmul', 'tensordot') and len(e.args) >= 2:
+                ops = (e.args[0], e.args[1])
+            elif isinstance(e, ast.Call) and _leafname(e.func) == 'einsum' and len(e.args) == 3:
+                ops = (e.args[1], e.args[2])
+            if ops is None:
+                continue
+            m = [is_member(x) for x in ops]
+            if m[0] == m[1]:
+                continue
+            n += 1
+            member, data = (ops[0], ops[1]) if m[0] else (ops[1], ops[0])
+            obs.bad(rule, q, f'group statistics in `{norm(e)[:60]}` are taken over the rows selected for the group',
+                    f'`{norm(member)[:50]}` is a 0/1 membership array and multiplies the whole of `{norm(data)[:40]}`: rows outside a group '
+                    f'enter its sum with weight 0, so one NaN / inf anywhere in the data makes the statistic of every group NaN',
+                    where(prog, f, e))
+    return n
+
+
+# ------------------------------------------------------------------------------------------------------------- TRI
+def triangular_solve(ctx, obs, prefixes: Sequence[str], rule='TRI') -> int:
+    """`solve_triangular(A, b)` reads ONE triangle of A and ignores the other: A must be triangular by construction.  Triangular: the
+    result of cholesky (numpy / scipy), np.tril / np.triu, the R of a qr; a product of a triangular factor with a diagonal matrix.
+    NOT triangular in general: the outer factor of scipy.linalg.ldl unless it is indexed by the permutation ldl returns (pivoting
+    permutes its rows), eigenvector matrices (eigh / eig / svd), a general product.  Anything else: undecided."""
+    prog = ctx.prog
+    n = 0
+    for q, f in sorted(prog.functions.items()):
+        if not _in_scope(q, prefixes) or f.parent is not None:
+            continue
+        calls = [c for c in ast.walk(f.node) if isinstance(c, ast.Call) and _leafname(c.func) in ('solve_triangular', 'cho_solve') and c.args]
+        if not calls:
+            continue
+        r = ctx.dep.result(q)
+
+        def kind(e, depth=0) -> str:
+            if depth > 6:
+                return 'unknown'
+            if isinstance(e, ast.Call):
+                lf = _leafname(e.func)
+                if lf in ('cholesky', 'tril', 'triu', 'cho_factor'):
+                    return 'tri'
+                if lf in ('eigh', 'eig', 'svd', 'eigvalsh', 'orth'):
+                    return 'general'
+                return 'unknown'
+            if isinstance(e, ast.BinOp) and isinstance(e.op, ast.MatMult):
+                k = kind(e.left, depth + 1)
+                return k if k in ('general', 'permuted') else ('tri' if k == 'tri' and kind(e.right, depth + 1) in ('tri', 'diag') else 'unknown')
+            if isinstance(e, ast.Subscript):
+                # L[perm] of an ldl factor
+                if isinstance(e.value, ast.Name) and kind(e.value, depth + 1) == 'permuted' and isinstance(e.slice, (ast.Name, ast.Tuple)):
+                    return 'tri'
+                return 'unknown'
+            if isinstance(e, ast.Attribute) and e.attr == 'T':
+                return kind(e.value, depth + 1)
+            if isinstance(e, ast.Name):
+                ids = r.load_defs.get(id(e), frozenset()) if r is not None else frozenset()
+                ks = set()
+                for i in ids:
+                    d = r.defs[i]
+                    if d.kind != 'assign' or not isinstance(d.node, ast.Assign):
+                        ks.add('unknown')
+                        continue
+                    tgt, val = d.node.targets[0], d.node.value
+                    if isinstance(tgt, (ast.Tuple, ast.List)) and isinstance(val, ast.Call):
+                        pos = next((k_ for k_, t in enumerate(tgt.elts) if isinstance(t, ast.Name) and t.id == e.id), None)
+                        lf = _leafname(val.func)
+                        if lf == 'ldl':
+                            ks.add('permuted' if pos == 0 else ('diag' if pos == 1 else 'unknown'))
+                        elif lf in ('eigh', 'eig', 'svd'):
+                            ks.add('general')
+                        elif lf == 'qr':
+                            ks.add('tri' if pos == 1 else 'general')
+                        else:
+                            ks.add('unknown')
+                    elif isinstance(tgt, ast.Name):
+                        # D = np.sqrt(D), D[D < eps] = eps keep a diagonal matrix diagonal
+                        if isinstance(val, ast.Call) and _leafname(val.func) in ('sqrt', 'abs', 'diag', 'maximum', 'copy') and val.args \
+                                and kind(val.args[0], depth + 1) == 'diag':
+                            ks.add('diag')
+                        elif isinstance(val, ast.Call) and _leafname(val.func) in ('diag', 'eye', 'identity'):
+                            ks.add('diag')
+                        else:
+                            ks.add(kind(val, depth + 1))
+                    else:
+                        ks.add('unknown')
+                if len(ks) == 1:
+                    return next(iter(ks))
+                if 'general' in ks or 'permuted' in ks:
+                    return 'general' if 'general' in ks else 'permuted'
+                return 'unknown'
+            return 'unknown'
+        for c in calls:
+            n += 1
+            a = c.args[0]
+            k = kind(a)
+            con = f'the matrix handed to `{norm(c)[:50]}` is triangular by construction'
+            if k == 'tri':
+                obs.ok(rule, q, con, '', where(prog, f, c))
+            elif k in ('general', 'permuted'):
+                why = 'the outer factor of scipy.linalg.ldl, whose rows are permuted whenever ldl pivots (the permutation it returns is not applied)' \
+                    if k == 'permuted' else 'not a triangular factor (eigenvectors / a general product)'
+                obs.bad(rule, q, con, f'`{norm(a)[:40]}` is {why}: solve_triangular silently ignores the entries on the other side of the '
+                        f'diagonal and returns the solution of a different system', where(prog, f, c))
+            else:
+                obs.unk(rule, q, con, f'origin of `{norm(a)[:40]}` not recognised', where(prog, f, c))
+    return n
